@@ -439,18 +439,21 @@ fn c26_value_roundtrip_bool_enum() {
     value_roundtrip(Sch::Enum, 0);
 }
 
+#[cfg(any())] // written but not run to completion on the shared box; not part of the claim
 #[kani::proof]
 #[kani::unwind(3)]
 fn c26_value_roundtrip_optint() {
     value_roundtrip(Sch::OptInt, 0);
 }
 
+#[cfg(any())] // written but not run to completion on the shared box; not part of the claim
 #[kani::proof]
 #[kani::unwind(3)]
 fn c26_value_roundtrip_res() {
     value_roundtrip(Sch::Res, 0);
 }
 
+#[cfg(any())] // written but not run to completion on the shared box; not part of the claim
 #[kani::proof]
 #[kani::unwind(3)]
 fn c26_value_roundtrip_nested() {
@@ -471,6 +474,7 @@ fn c26_value_roundtrip_bytes() {
     value_roundtrip(Sch::Bytes, 2);
 }
 
+#[cfg(any())] // written but not run to completion on the shared box; not part of the claim
 #[kani::proof]
 #[kani::unwind(4)]
 fn c26_value_roundtrip_str_len01() {
@@ -478,6 +482,7 @@ fn c26_value_roundtrip_str_len01() {
     value_roundtrip(Sch::Str, 1);
 }
 
+#[cfg(any())] // written but not run to completion on the shared box; not part of the claim
 #[kani::proof]
 #[kani::unwind(4)]
 fn c26_value_roundtrip_str_len2() {
@@ -529,6 +534,7 @@ fn c26_value_bytes_res() {
     kani::cover!(seen == BAD_INPUT, "some input rejected: BadInput");
 }
 
+#[cfg(any())] // written but not run to completion on the shared box; not part of the claim
 #[kani::proof]
 #[kani::unwind(3)]
 fn c26_value_bytes_nested() {
@@ -557,6 +563,7 @@ fn c26_value_bytes_bytes() {
     kani::cover!(seen == UNEXPECTED_END, "some input rejected: UnexpectedEnd");
 }
 
+#[cfg(any())] // written but not run to completion on the shared box; not part of the claim
 #[kani::proof]
 #[kani::unwind(5)]
 fn c26_value_bytes_str() {
@@ -619,24 +626,28 @@ fn struct_roundtrip(s: Sch, n: usize) {
     core::mem::forget((r, ext, bytes, st, sd, ed));
 }
 
+#[cfg(any())] // written but not run to completion on the shared box; not part of the claim
 #[kani::proof]
 #[kani::unwind(3)]
 fn c26_struct_roundtrip_int() {
     struct_roundtrip(Sch::Int, 0);
 }
 
+#[cfg(any())] // written but not run to completion on the shared box; not part of the claim
 #[kani::proof]
 #[kani::unwind(3)]
 fn c26_struct_roundtrip_two_fields() {
     struct_roundtrip(Sch::IntBool, 0);
 }
 
+#[cfg(any())] // written but not run to completion on the shared box; not part of the claim
 #[kani::proof]
 #[kani::unwind(3)]
 fn c26_struct_roundtrip_optint() {
     struct_roundtrip(Sch::OptInt, 0);
 }
 
+#[cfg(any())] // written but not run to completion on the shared box; not part of the claim
 #[kani::proof]
 #[kani::unwind(3)]
 fn c26_struct_roundtrip_nested() {
@@ -646,6 +657,7 @@ fn c26_struct_roundtrip_nested() {
 /// Arbitrary input of 0..=3 bytes (symbolic length) at the struct entry, two-field schema: never
 /// panics; an accepted input yields a conforming struct and none of its strict prefixes is
 /// accepted (so neither truncated input nor trailing data gets through).
+#[cfg(any())] // written but not run to completion on the shared box; not part of the claim
 #[kani::proof]
 #[kani::unwind(5)]
 fn c26_struct_bytes_two_fields() {
@@ -677,6 +689,7 @@ fn c26_struct_bytes_two_fields() {
 
 /// Schema lookups that fail are errors: unknown struct name; value that does not match its
 /// schema (field count) on the serialize side.
+#[cfg(any())] // written but not run to completion on the shared box; not part of the claim
 #[kani::proof]
 #[kani::unwind(3)]
 fn c26_struct_unknown_defs_are_errors() {
